@@ -396,7 +396,9 @@ func (g *PG) stmt(c genCtx) string {
 		g.decls = append(g.decls, "function "+r+"(n){var t;if(n<=0||F--<=0)return 0;"+fb+"return "+r+"(n-1)+1;}")
 		depth := g.n(1, 4, "rdepth")
 		if g.n(0, 3, "deep?") == 3 {
+			// deep but cheap: one transaction per level
 			depth = g.n(10, 40, "rdeep")
+			g.decls[len(g.decls)-1] = "function " + r + "(n){var t;if(n<=0||F--<=0)return 0;" + g.tx() + "return " + r + "(n-1)+1;}"
 		}
 		return "S.n+=" + r + "(" + strconv.Itoa(depth) + ");"
 	case "reenter":
